@@ -10,4 +10,5 @@ import Secp.Props.C17
 import Secp.Props.C18
 import Secp.Props.C08
 import Secp.Props.C09
+import Secp.Props.C10
 import Secp.Props.C19
